@@ -571,6 +571,40 @@ theorem malformed_drops_sample_only (epoch : Rat) (sigs : List SigDef) (hasSink 
   rw [detect_points epoch sigs hasSink actor sd hs hu, detect_points epoch sigs hasSink actor sd hs hu,
     (malformed_drops_point_only epoch sd 0 pre post l h).2.1]
 
+/-- … and it causes **no audit round**: a line on which every signal of the role is malformed (or matches nothing, or
+has no sink) produces no event at all for the audition — "unparsable captures drop the point, never the play".
+(Before the repair e3e8ea0 an event without values was still emitted for the time stamp of a line whose number did
+not parse: `t`, `mood`, `moodt` were assigned at that time and auditors woken.) -/
+theorem malformed_line_emits_nothing (epoch : Rat) (sigs : List SigDef) (hasSink : String → Bool)
+    (actor : String) (lasts : Lasts) (line : List Char)
+    (h : ∀ sd ∈ sigs, hasSink sd.name = false ∨ matchSig epoch sd line = none ∨ Malformed epoch sd line) :
+    detectLine epoch sigs hasSink actor lasts line = (lasts, []) := by
+  rw [detectLine_eq]
+  have key : ∀ (l : List SigDef), (∀ sd ∈ l, hasSink sd.name = false ∨ matchSig epoch sd line = none ∨ Malformed epoch sd line) →
+      l.foldl (detStep epoch hasSink actor line) (lasts, []) = (lasts, []) := by
+    intro l
+    induction l with
+    | nil => intro _; rfl
+    | cons sd l ih =>
+      intro hl
+      have hstep : detStep epoch hasSink actor line (lasts, []) sd = (lasts, []) := by
+        rcases hl sd (by simp) with hns | hnm | hmal
+        · simp [detStep, hns]
+        · unfold detStep; split
+          · rfl
+          · rw [hnm]
+        · unfold detStep; split
+          · rfl
+          · rcases hmal with ⟨v, hm⟩ | ⟨ht, st, v, hm, hp⟩
+            · rw [hm]
+            · rw [hm]
+              cases st with
+              | none => rfl
+              | some st => cases hty : sd.typ <;> simp_all
+      simp only [List.foldl_cons, hstep]
+      exact ih (fun x hx => hl x (by simp [hx]))
+  rw [key sigs h]; rfl
+
 /-- a line matching no pattern of `sd` is equally silent -/
 theorem nomatch_no_point (epoch : Rat) (sd : SigDef) (last : Rat) (line : List Char)
     (h : matchSig epoch sd line = none) : sampleOf epoch sd last line = (last, none) := by
